@@ -5,11 +5,12 @@
 //cfg: fn @ Fb::set
 //cfg: fn @ Md::get
 //cfg: fn @ Md::put
-//grid: { let mut f = Fb::<3, 2, 6> { data: [0; 6], tag: () }; f.set({x}, {y}, 9); f.data.to_vec() } ||| Fb_data (src_Fb_set 3 2 (Build_Fb [0;0;0;0;0;0] tt) {x} {y} 9) ||| x=-1,0,1,2,3; y=-1,0,1,2
-//grid: { let mut m = Md::<u8> { cells: [None; 16], flag: false }; m.put({x}, {y}, Some(5)); (m.get({x}, {y}), m.get(0, 0), m.get({y}, {x})) } ||| let m := src_Md_put (Build_Md (repeat None 16) false) {x} {y} (Some 5) in (src_Md_get m {x} {y}, src_Md_get m 0 0, src_Md_get m {y} {x}) ||| x=0,1,3; y=0,2,3
-//grid: { let m = Md::<u8> { cells: [None; 16], flag: false }; m.get({x}, {y}) } ||| src_Md_get (Build_Md (repeat None 16) false) {x} {y} ||| x=-1,0,4; y=-1,3,4
+//pgrid: { let mut f = Fb::<3, 2, 6> { data: [0; 6], tag: () }; f.set({x}, {y}, 9); f.data.to_vec() } ||| option_map Fb_data (src_Fb_set 3 2 (Build_Fb [0;0;0;0;0;0] tt) {x} {y} 9) ||| x=-1,0,1,2,3; y=-1,0,1,2
+//pgrid: { let mut f = Fb::<3, 2, 4> { data: [0; 4], tag: () }; f.set({x}, {y}, 9); f.data.to_vec() } ||| option_map Fb_data (src_Fb_set 3 2 (Build_Fb [0;0;0;0] tt) {x} {y} 9) ||| x=0,1,2,3; y=0,1,2
+//pgrid: { let mut m = Md::<u8> { cells: [None; 16], flag: false }; m.put({x}, {y}, Some(5)); (m.get({x}, {y}), m.get(0, 0), m.get({y}, {x})) } ||| obind (src_Md_put (Build_Md (repeat None 16) false) {x} {y} (Some 5)) (fun m => obind (src_Md_get m {x} {y}) (fun a => obind (src_Md_get m 0 0) (fun b => obind (src_Md_get m {y} {x}) (fun c => Some (a, b, c))))) ||| x=-1,0,1,3,4; y=0,2,3,4
+//pgrid: { let m = Md::<u8> { cells: [None; 16], flag: false }; m.get({x}, {y}) } ||| src_Md_get (Build_Md (repeat None 16) false) {x} {y} ||| x=-1,0,4; y=-1,3,4
 // `a[i] = v`, `a[i]` on arrays whose length is not a small literal (lists), `usize::try_from`, `if let (Ok(x), Ok(y))`,
-// const generics of the impl, `assert!` (only panics)
+// const generics of the impl, `assert!`; index out of range and a failing `assert!` are None (partial functions)
 pub const SZ: usize = 4;
 pub struct Fb<const W: usize, const H: usize, const N: usize> { pub data: [u8; N], pub tag: () }
 impl<const W: usize, const H: usize, const N: usize> Fb<W, H, N> {
